@@ -4,3 +4,21 @@ open ZCV.Props.C18
 #print axioms C18_urlnormalize_form
 #print axioms C18_urlnormalize_idempotent
 #print axioms C18_urlnormalize_fixed
+#print axioms C18_unquote_quote
+#print axioms C18_quote_roundtrip
+#print axioms C18_pathToUrl_injective
+#print axioms C18_pathToUrl_normal
+#print axioms C18_isPath_of_nocolon
+#print axioms C18_quoted_has_no_fragment
+#print axioms C18_entry_points_agree
+#print axioms C18_join_eq_resolve
+#print axioms C18_join_eq_resolve_any
+#print axioms C18_join_raw_eq_resolve
+#print axioms C18_join_is_pathToUrl
+#print axioms C18_zjoin_eq_join
+#print axioms C18_join_absolute
+#print axioms C18_normal_is_abs
+#print axioms C18_join_nested
+#print axioms C18_join_nested_url
+#print axioms C18_join_nested_raw
+#print axioms C18_resolve_compositional
